@@ -72,7 +72,7 @@ def build_witnesses(fdir, wits, jobs=16, log=None):
     sdir = os.path.join(wdir, "src")
     os.makedirs(sdir, exist_ok=True)
     status_path = os.path.join(wdir, "status.json")
-    with facts.Lock("wit.lock"):
+    with facts.Lock("wit-%s.lock" % os.path.basename(os.path.dirname(fdir))):
         status = {}
         if os.path.exists(status_path):
             with open(status_path) as f:
